@@ -163,7 +163,16 @@ static void cb_apply(jwt_t *jwt, const struct cb_op *op)
 		memset(&jv, 0, sizeof(jv));
 		jv.type = JWT_VALUE_STR;
 		jv.name = "alg";
-		jv.str_val = op->sval;
+		/* real algorithm names (a setter that reacted to the NAME would need one) or arbitrary text */
+		switch ((unsigned long)op->ival & 7) {
+		case 0: jv.str_val = "none"; break;
+		case 1: jv.str_val = "HS256"; break;
+		case 2: jv.str_val = "HS384"; break;
+		case 3: jv.str_val = "RS256"; break;
+		case 4: jv.str_val = "ES256"; break;
+		case 5: jv.str_val = "EdDSA"; break;
+		default: jv.str_val = op->sval; break;
+		}
 		jv.replace = 1;
 		jwt_header_set(jwt, &jv);
 		return;
